@@ -23,6 +23,73 @@ pub trait Adapter {
     }
 }
 
+/// Lexical state within a program message. It tells the newline that ends the
+/// message from a newline inside a quoted string or a block of arbitrary data.
+#[derive(Clone, Copy)]
+enum Scanner {
+    /// Outside of strings and blocks.
+    Plain,
+    /// Inside a string that ends at this quote character.
+    Quoted(u8),
+    /// Behind a `#`.
+    Hash,
+    /// Inside the length field of a block: number of digits still to come and
+    /// the value of the digits seen so far.
+    Length(u8, usize),
+    /// Inside the data of a block: number of bytes still to come.
+    Block(usize),
+}
+
+impl Scanner {
+    /// Advances over `byte` and returns whether it is the message terminator.
+    fn is_terminator(&mut self, byte: u8) -> bool {
+        loop {
+            match *self {
+                Scanner::Plain => {
+                    match byte {
+                        b'\n' => return true,
+                        b'\'' | b'"' => *self = Scanner::Quoted(byte),
+                        b'#' => *self = Scanner::Hash,
+                        _ => (),
+                    }
+                    return false;
+                }
+                Scanner::Quoted(quote) => {
+                    if byte == quote {
+                        *self = Scanner::Plain;
+                    }
+                    return false;
+                }
+                // `#<n><length>` is followed by <length> bytes of arbitrary data.
+                Scanner::Hash => {
+                    if let b'1'..=b'9' = byte {
+                        *self = Scanner::Length(byte - b'0', 0);
+                        return false;
+                    }
+                    *self = Scanner::Plain;
+                }
+                Scanner::Length(digits, length) => {
+                    if byte.is_ascii_digit() {
+                        let length = length.saturating_mul(10).saturating_add((byte - b'0') as usize);
+                        *self = match (digits, length) {
+                            (1, 0) => Scanner::Plain,
+                            (1, _) => Scanner::Block(length),
+                            _ => Scanner::Length(digits - 1, length),
+                        };
+                        return false;
+                    }
+                    // Anything but digits in the length field: this is not a block.
+                    *self = Scanner::Plain;
+                }
+                Scanner::Block(length) => {
+                    *self = if length > 1 { Scanner::Block(length - 1) } else { Scanner::Plain };
+                    return false;
+                }
+            }
+        }
+    }
+}
+
 /// Finds the end of the program message at the start of `input` without parsing
 /// it: the first newline that is not part of a quoted string or of a block of
 /// arbitrary data. Returns the input behind that newline, or `None` if the
@@ -30,35 +97,10 @@ pub trait Adapter {
 ///
 /// This is used to discard a faulty message, so it has to find the same
 /// terminator the parser would have found for a valid one.
-fn skip_message(mut input: &[u8]) -> Option<&[u8]> {
-    loop {
-        input = match *input.first()? {
-            b'\n' => return Some(&input[1..]),
-            quote @ (b'\'' | b'"') => {
-                let length = input[1..].iter().position(|b| *b == quote)?;
-                &input[length + 2..]
-            }
-            b'#' => match input.get(1) {
-                // `#<n><length>` is followed by <length> bytes of arbitrary data.
-                Some(digits @ b'1'..=b'9') => {
-                    let digits = (digits - b'0') as usize;
-                    // Anything but digits in the length field: this is not a block.
-                    if !input[2..].iter().take(digits).all(u8::is_ascii_digit) {
-                        &input[1..]
-                    }
-                    else {
-                        let length = input.get(2..2 + digits)?;
-                        match core::str::from_utf8(length).ok().and_then(|l| l.parse::<usize>().ok()) {
-                            Some(length) => input.get(2 + digits + length..)?,
-                            None => &input[1..],
-                        }
-                    }
-                }
-                _ => &input[1..],
-            },
-            _ => &input[1..],
-        };
-    }
+fn skip_message(input: &[u8]) -> Option<&[u8]> {
+    let mut scanner = Scanner::Plain;
+    let end = input.iter().position(|byte| scanner.is_terminator(*byte))?;
+    Some(&input[end + 1..])
 }
 
 /// Checks whether `input` holds a complete program message, i.e. whether the
@@ -208,30 +250,36 @@ pub trait Interface: ErrorHandler {
     
         let mut proc_offset = 0;
         let mut read_offset = 0;
-        // A message that does not fit into the buffer is discarded up to its terminator.
-        let mut discarding = false;
+        // A message that does not fit into the buffer is discarded up to its terminator. This
+        // is the lexical state at the end of the part that has been discarded so far.
+        let mut discarding: Option<Scanner> = None;
     
         loop {
             #[cfg(microscpi_verif)]
-            adapter.verif_loop_state(&cmd_buf[..read_offset], proc_offset, read_offset, res_buf.len(), discarding);
+            adapter.verif_loop_state(&cmd_buf[..read_offset], proc_offset, read_offset, res_buf.len(), discarding.is_some());
 
             let count = adapter.read(&mut cmd_buf[read_offset..]).await?;
             let read_end = read_offset + count;
-            
+
+            // Skip the rest of a message whose beginning has been discarded. A newline inside
+            // a string or a block is not its end.
+            if let Some(scanner) = &mut discarding {
+                match cmd_buf[..read_end].iter().position(|byte| scanner.is_terminator(*byte)) {
+                    Some(position) => {
+                        discarding = None;
+                        proc_offset = position + 1;
+                        read_offset = proc_offset;
+                    }
+                    None => continue,
+                }
+            }
+
             // Find the first terminator in the buffer starting from the last read position.
             while let Some(position) = cmd_buf[read_offset..read_end]
                 .iter()
                 .position(|b| *b == b'\n')
             {
                 let terminator_pos = read_offset + position;
-
-                // This is the end of a message whose beginning has been discarded.
-                if discarding {
-                    discarding = false;
-                    proc_offset = terminator_pos + 1;
-                    read_offset = proc_offset;
-                    continue;
-                }
 
                 let data = &cmd_buf[proc_offset..=terminator_pos];
 
@@ -274,8 +322,12 @@ pub trait Interface: ErrorHandler {
             if read_offset >= cmd_buf.len() {
                 #[cfg(feature = "defmt")]
                 defmt::warn!("SCPI buffer overflow, resetting buffer");
+                let mut scanner = Scanner::Plain;
+                for byte in &cmd_buf[..read_offset] {
+                    scanner.is_terminator(*byte);
+                }
                 read_offset = 0;
-                discarding = true;
+                discarding = Some(scanner);
             }
         }
     }
